@@ -40,29 +40,12 @@ def gen_cases(tier, seed):
     return cases
 
 
-class CorruptProblem:
+class CorruptProblem(mon.ProxyProblem):
     """Proxy that makes exactly one derivative entry of the user's problem wrong."""
 
     def __init__(self, inner, kind, i, j, delta):
-        self.inner = inner
-        self.var_lb, self.var_ub = inner.var_lb, inner.var_ub
-        self.cons_lb, self.cons_ub = inner.cons_lb, inner.cons_ub
-        self.num_cons = inner.num_cons
+        super().__init__(inner)
         self.kind, self.i, self.j, self.delta = kind, i, j, delta
-
-    @property
-    def num_vars(self):
-        return self.inner.num_vars
-
-    @property
-    def var_bounded(self):
-        return self.inner.var_bounded
-
-    def obj(self, x):
-        return self.inner.obj(x)
-
-    def cons(self, x):
-        return self.inner.cons(x)
 
     def obj_grad(self, x):
         g = np.array(self.inner.obj_grad(x), dtype=float, copy=True)
@@ -72,7 +55,10 @@ class CorruptProblem:
 
     def _bump(self, mat):
         A = np.array(mat.toarray(), dtype=float)
-        A[self.i, self.j] += self.delta
+        if self.delta is None:
+            A[self.i, self.j] = 0.0   # entry forgotten: absent from the sparsity pattern
+        else:
+            A[self.i, self.j] += self.delta
         return {"coo": sps.coo_matrix, "csr": sps.csr_matrix, "csc": sps.csc_matrix}[self.inner.fmt](A)
 
     def cons_jac(self, x):
@@ -202,6 +188,11 @@ def run_case(case):
         dint = base * float(10.0 ** rng.uniform(0, 4)) * float(rng.choice([-1.0, 1.0]))
         if abs(dint) > 10.0:
             dint = np.sign(dint) * float(rng.uniform(1.0, 10.0)) if base < 1.0 else dint
+        dropped = False
+        if kind != "grad" and abs(entry) >= base and rng.random() < 0.3:
+            # the entry is simply missing from the user's sparse matrix
+            dint = -entry
+            dropped = True
         # back to the user's space (exact power-of-two factor)
         fac = so / sv[j] if kind == "grad" else (sc[i] / sv[j] if kind == "jac" else so / (sv[i] * sv[j]))
         duser = dint / fac
@@ -211,11 +202,19 @@ def run_case(case):
             mode = "first" if kind != "hess" else "second"
         elif r < 0.25:
             mode = "second" if kind != "hess" else "first"   # the corrupted derivative is not checked
+        if dropped:
+            duser = None
+            bump("corruptions_entry_missing_from_pattern")
         _, on = run_solve_with(case, lambda inner: CorruptProblem(inner, kind, i, j, duser), mode)
         evals += 1
         bump("corruptions_injected")
         bump("corrupt_" + kind)
         expect_error = not ((mode == "first" and kind == "hess") or (mode == "second" and kind != "hess"))
+        if not expect_error and dropped and kind == "jac":
+            # a Jacobian entry missing from the pattern also changes the function the Hessian check
+            # differentiates (grad f + J'y): an error may or may not be raised there -- not judged
+            bump("corruptions_not_judged")
+            continue
         if not expect_error:
             bump("corruptions_outside_checked_part")
             if isinstance(on.exc, DerivError) and well_scaled:
@@ -248,11 +247,11 @@ def finalize(agg, tier):
                 "random in-bounds starts incl. on-bound components, random or zero starting multipliers; per base problem: "
                 "check modes All/First/Second with correct derivatives (only if the computed forward-difference error bound "
                 "is <= 1e-5) and up to 40 single-entry corruptions (every gradient / Jacobian / Hessian position when there "
-                "are fewer) with magnitude 1x..1e4x the safe threshold 3(atol+rtol|entry|), both signs; 25% of them under a "
+                "are fewer) with magnitude 1x..1e4x the safe threshold 3(atol+rtol|entry|), both signs, 30% of the matrix corruptions as an entry missing from the sparsity pattern; 25% of them under a "
                 "partial check mode; non-trivial = comparison carried out and as expected; distinct by construction",
         "floors": {"base_runs": 100, "well_scaled_bases": 40, "correct_runs_checked": 120, "corruptions_injected": 2000,
                    "corrupt_grad": 200, "corrupt_jac": 300, "corrupt_hess": 500, "pinpointed": 1500,
-                   "corruptions_outside_checked_part": 100},
+                   "corruptions_outside_checked_part": 100, "corruptions_entry_missing_from_pattern": 100},
         "assumptions": ["well-scaled class: eps/2*|2nd derivative| + 4*macheps*|f|/eps + 2*macheps*|x_i||d|/eps <= 1e-5 for "
                         "all checked functions of the transformed problem at the start (magnitudes as sums of absolute "
                         "values of terms); location is only judged for bases in that class"],
